@@ -18,6 +18,7 @@ var properties = map[string][]harnessSpec{
 		{Name: "op.VerifC13Scale", Marks: []string{"end", "supported", "rejected", "relative-supported"}},
 		{Name: "op.VerifC13TwoScales", Marks: end},
 		{Name: "op.VerifC13Listing", Marks: end},
+		{Name: "desc.VerifC13Describe", Marks: end},
 		{Name: "op.VerifC13ParseKey", Quick: map[string]int{"C13.maxLen": 3}, Thorough: map[string]int{"C13.maxLen": 4}, Marks: []string{"end", "parse-error", "no-scale"}},
 	},
 	"C14": {
@@ -32,6 +33,7 @@ var properties = map[string][]harnessSpec{
 		{Name: "note.VerifC15SemitoneUnbounded", Solver: "cvc5-int", Marks: end, MustTerminate: true},
 		{Name: "note.VerifC15AddDegree", Solver: "cvc5-int", Quick: map[string]int{"C15.maxAdd": 15}, Thorough: map[string]int{"C15.maxAdd": 64}, Marks: []string{"end", "refused"}},
 		{Name: "note.VerifC15ParseDegree", Solver: "cvc5-int", Quick: map[string]int{"C15.digits": 2}, Thorough: map[string]int{"C15.digits": 3}, Marks: end},
+		{Name: "cmd.VerifC15DescribeCmd", Marks: end},
 		{Name: "desc.VerifC15Describe", Quick: map[string]int{"C15.chords": 4}, Thorough: map[string]int{"C15.chords": 46}, Marks: end},
 		{Name: "note.VerifC10DegreeCodec", Quick: map[string]int{"C10.maxNumber": 99}, Thorough: map[string]int{"C10.maxNumber": 999}, Marks: end},
 	},
@@ -67,6 +69,7 @@ var properties = map[string][]harnessSpec{
 	"C03": {
 		{Name: "astconv.VerifC03Syllable", Quick: map[string]int{"C03.bass": 1}, Thorough: map[string]int{"C03.bass": 1}, Marks: []string{"end", "end-with-bass", "rejected"}},
 		{Name: "cmd.VerifC03KeyFlag", Marks: end},
+		{Name: "astconv.VerifC11SpellingHistory", Marks: end},
 		{Name: "astconv.VerifC03History", Marks: []string{"end", "rejected"}},
 		// "every supported key" includes the key in force after a {key=…} change, on a chord or a rest
 		{Name: "astconv.VerifC05KeyChange", Marks: []string{"end", "carrier-rejected"}},
@@ -118,6 +121,7 @@ var properties = map[string][]harnessSpec{
 		{Name: "input/ast.VerifC11MetaSpaces", Quick: map[string]int{"C11.metaLen": 2}, Thorough: map[string]int{"C11.metaLen": 3}, Marks: end},
 		{Name: "cmd.VerifC11DescribeAccidental", Marks: end},
 		{Name: "cmd.VerifC11LongUnicode", Quick: map[string]int{"C11.longChords": 600}, Thorough: map[string]int{"C11.longChords": 1200}, Marks: end},
+		{Name: "astconv.VerifC11SpellingHistory", Marks: end},
 		{Name: "input/ast.VerifC11Underscore", Quick: map[string]int{"C11.symbol": 3}, Thorough: map[string]int{"C11.symbol": 4}, Marks: []string{"end", "not-a-plain-symbol"}, MustTerminate: true},
 		{Name: "astconv.VerifC11LeadingZeros", Quick: map[string]int{"C11.digits": 2}, Thorough: map[string]int{"C11.digits": 4}, Marks: []string{"end", "converted"}},
 		{Name: "astconv.VerifC11Accidental", Marks: []string{"end", "honoured", "not-an-accidental"}},
